@@ -904,6 +904,25 @@ pub fn nrpn_history_outcome(ops: &[Op]) -> Result<ROutcome, Fail> {
     Ok(ROutcome { nontrivial, classes, hash: hash64(&ops) })
 }
 
+/// prefix that installs a per-channel state, followed by one probe input
+fn state_ops(ch: u8, m: Option<u8>, l: Option<u8>, z: Option<u8>, kinds: u8, cn: u8, v: u8) -> Vec<Op> {
+    let mut ops = Vec::with_capacity(4);
+    let mo = m.map(|x| Op::cc(ch, if kinds & 1 == 1 { 101 } else { 99 }, x));
+    let lo = l.map(|x| Op::cc(ch, if kinds & 2 == 2 { 100 } else { 98 }, x));
+    if kinds & 4 == 4 {
+        ops.extend(lo);
+        ops.extend(mo);
+    } else {
+        ops.extend(mo);
+        ops.extend(lo);
+    }
+    if let Some(x) = z {
+        ops.push(Op::cc(ch, 38, x));
+    }
+    ops.push(Op::cc(ch, cn, v));
+    ops
+}
+
 #[derive(Clone)]
 struct BState {
     sc: ParameterNumberMessageScanner,
@@ -999,6 +1018,55 @@ pub fn run_c11(ctx: &Ctx) -> Report {
             let ops: Vec<Op> = path.iter().map(|i| alphabet[*i]).collect();
             sub.record(f, || json!({"kind": "history", "ops": ops_json(&ops)}), ops.len() as u128);
         }
+        subs.push(sub);
+    }
+    // every constructed per-channel state x every next input (the property's own quantifier)
+    {
+        let thorough = ctx.thorough();
+        let vals: Vec<Option<u8>> = if thorough { std::iter::once(None).chain((0..128u8).map(Some)).collect() } else { vec![None, Some(0), Some(1), Some(63), Some(64), Some(126), Some(127)] };
+        let nv = vals.len() as u64;
+        let mut inputs: Vec<(u8, u8)> = Vec::new();
+        for cn in [6u8, 96, 97] {
+            for v in 0..128u8 {
+                inputs.push((cn, v));
+            }
+        }
+        for cn in [38u8, 98, 99, 100, 101] {
+            for v in if thorough { vec![0u8, 127] } else { (0..128u8).collect::<Vec<_>>() } {
+                inputs.push((cn, v));
+            }
+        }
+        inputs.push((7, 1));
+        inputs.push((121, 0));
+        let ni = inputs.len() as u64;
+        let proto = Sub::new(
+            "state_x_input",
+            &format!("every per-channel state built from (number MSB, number LSB, their kinds and order, data LSB) with each byte in {} x {} next inputs, compared with the reference scanner (state installed by feeding the Control Changes that produce it)", if thorough { "{none, 0..127}" } else { "{none,0,1,63,64,126,127}" }, ni),
+            "non-trivial = state with at least one byte stored",
+            thorough,
+        );
+        let total = nv * nv * nv * 8 * ni;
+        let stride = ctx.pick(13u64, 1, 1);
+        let mut sub = par_enum(ctx, &proto, total / stride, |sub, j| {
+            let i = j * stride;
+            let (cn, v) = inputs[(i % ni) as usize];
+            let r = i / ni;
+            let kinds = (r % 8) as u8;
+            let r = r / 8;
+            let (m, l, z) = (vals[(r % nv) as usize], vals[((r / nv) % nv) as usize], vals[(r / (nv * nv)) as usize]);
+            let ch = (r % 16) as u8;
+            sub.eval(
+                i as u128,
+                || json!({"kind": "history", "ops": ops_json(&state_ops(ch, m, l, z, kinds, cn, v))}),
+                || {
+                    let ops = state_ops(ch, m, l, z, kinds, cn, v);
+                    let mut st = NrpnStats::default();
+                    check_nrpn_history(&ops, &mut st)?;
+                    Ok(ops.len() > 1)
+                },
+            );
+        });
+        sub.samples.push(json!({"kind": "history", "ops": ops_json(&state_ops(3, Some(3), Some(36), Some(24), 5, 6, 117))}));
         subs.push(sub);
     }
     // repetition probes (wrapping counters)
